@@ -480,7 +480,7 @@ func verifRunListing(out *verifkit.Trace, w *verifLW, in verifListingIn) {
 			if w.rng.Intn(2) == 0 {
 				inlineOutbox["orderedItems"] = entries
 			} else {
-				inlineOutbox["first"] = map[string]any{"type": "OrderedCollectionPage", "orderedItems": entries}
+				inlineOutbox["first"] = w.partOf(map[string]any{"type": "OrderedCollectionPage", "orderedItems": entries}, outboxID)
 			}
 		} else if in.Place == "foreign_anon" || in.Place == "redirect_anon" {
 			/* the listing is served by B and has no id; what it embeds is B's word */
@@ -490,7 +490,8 @@ func verifRunListing(out *verifkit.Trace, w *verifLW, in verifListingIn) {
 			if w.rng.Intn(2) == 0 {
 				anon["orderedItems"] = items
 			} else {
-				anon["first"] = map[string]any{"type": "OrderedCollectionPage", "orderedItems": items}
+				/* a page without an id may say which collection it is part of - here the owner's own, on the owner's host */
+				anon["first"] = w.partOf(map[string]any{"type": "OrderedCollectionPage", "orderedItems": items}, w.A.URL(fmt.Sprintf("/s%d/outbox", w.sid)))
 			}
 			w.serve(w.B, foreign, anon)
 			outboxID = w.B.URL(foreign)
@@ -539,7 +540,12 @@ func verifRunListing(out *verifkit.Trace, w *verifLW, in verifListingIn) {
 			n["replies"] = map[string]any{"type": "Collection", "items": entries, "totalItems": w.count(len(entries))}
 		} else if in.Place == "foreign_anon" || in.Place == "redirect_anon" {
 			foreign := fmt.Sprintf("/s%d/replies", w.sid)
-			w.serve(w.B, foreign, map[string]any{"type": "Collection", "items": verifDeepRestamp(entries, "B"), "totalItems": w.count(len(entries))})
+			if w.rng.Intn(2) == 0 {
+				w.serve(w.B, foreign, map[string]any{"type": "Collection", "totalItems": w.count(len(entries)),
+					"first": w.partOf(map[string]any{"type": "CollectionPage", "items": verifDeepRestamp(entries, "B")}, parent+"/replies")})
+			} else {
+				w.serve(w.B, foreign, map[string]any{"type": "Collection", "items": verifDeepRestamp(entries, "B"), "totalItems": w.count(len(entries))})
+			}
 			n["replies"] = w.B.URL(foreign)
 			if in.Place == "redirect_anon" {
 				n["replies"] = w.A.URL(foreign)
@@ -657,4 +663,12 @@ func (w *verifLW) count(n int) any {
 		return "many"
 	}
 	return n
+}
+
+/* what a page says about the collection it belongs to is its own word */
+func (w *verifLW) partOf(page map[string]any, collection string) map[string]any {
+	if w.rng.Intn(3) > 0 {
+		page["partOf"] = collection
+	}
+	return page
 }
